@@ -1,0 +1,65 @@
+//go:build verif
+// +build verif
+
+package rpc
+
+import "sync/atomic"
+
+// This file exists only under the build tag "verif". It gives an external
+// verification harness (see /verif) a few observation points; it adds no
+// behaviour of its own.
+
+var verifHook atomic.Value // func(point string)
+
+// VerifSetHook installs fn to be called at the named verifPoint call sites
+// (nil removes it).
+func VerifSetHook(fn func(point string)) {
+	if fn == nil {
+		fn = func(string) {}
+	}
+	verifHook.Store(fn)
+}
+
+func verifPoint(point string) {
+	if fn, ok := verifHook.Load().(func(string)); ok && fn != nil {
+		fn(point)
+	}
+}
+
+// VerifLatencies returns a copy of the client's per-target latency estimates.
+func (c *Client) VerifLatencies() map[string]int64 {
+	c.lock.Lock()
+	defer c.lock.Unlock()
+	m := make(map[string]int64, len(c.targets))
+	for addr, t := range c.targets {
+		m[addr] = atomic.LoadInt64(&t.latency)
+	}
+	return m
+}
+
+// VerifPool returns, per address, the number of active and idle pooled
+// connections of the transport.
+func (t *Transport) VerifPool() map[string][2]int {
+	t.connsMu.Lock()
+	defer t.connsMu.Unlock()
+	m := make(map[string][2]int)
+	for addr, cs := range t.conns {
+		v := m[addr]
+		v[0] = len(cs.Conns)
+		m[addr] = v
+	}
+	for addr, cq := range t.idleConns {
+		v := m[addr]
+		v[1] = cq.Length()
+		m[addr] = v
+	}
+	return m
+}
+
+// VerifUpgrade decodes one upgrade byte and encodes the result again.
+func VerifUpgrade(b byte) (noRequest, noResponse, heartbeat, stream, out byte) {
+	u := &upgrade{}
+	u.Unmarshal([]byte{b})
+	buf, _ := u.Marshal(nil)
+	return u.NoRequest, u.NoResponse, u.Heartbeat, u.Stream, buf[0]
+}
